@@ -517,10 +517,22 @@ Proof.
   exists a, b. auto.
 Qed.
 
+Lemma chk_marks_sound l :
+  chk_marks l = true ->
+  forall m a, In m (l_marks l) -> In a (l_pins l) -> a_sym a = m_sym m -> a_pin a = m_pin m ->
+    (m_x0 m <= a_x a <= m_x1 m /\ m_y0 m <= a_y a <= m_y1 m)%Z.
+Proof.
+  intros H m a Hm Ha Hs Hp. unfold chk_marks in H. rewrite forallb_forall in H. specialize (H m Hm).
+  unfold mark_ok in H. rewrite forallb_forall in H. specialize (H a Ha).
+  rewrite Hs, Hp, Nat.eqb_refl in H. rewrite (proj2 (pin_eqb_eq (m_pin m) (m_pin m)) eq_refl) in H. simpl in H.
+  unfold on_mark in H. rewrite !andb_true_iff, !Z.leb_le in H. tauto.
+Qed.
+
 (* ------------------------------------------------------------------ the theorem *)
 Theorem schem_ok_sound c l : schem_ok c l = true -> SchemOK c l.
 Proof.
   unfold schem_ok. intro H.
+  apply andb_true_iff in H. destruct H as [H Hmarks].
   apply andb_true_iff in H. destruct H as [H Hgeo].
   apply andb_true_iff in H. destruct H as [H Hpinpts].
   apply andb_true_iff in H. destruct H as [H Hwires].
@@ -544,6 +556,7 @@ Proof.
     apply (chk_wire_sound c l w Hwf Hnd Honly Hw (Hwires w Hw)).
   - apply chk_pinpts_sound; assumption.
   - apply chk_geo_sound; assumption.
+  - apply chk_marks_sound; assumption.
 Qed.
 
 Lemma reach_connected l wid root fuel :
